@@ -4,6 +4,7 @@
   empty string.  (Harness side: /verif/harness/src/common.rs `hex`/`unhex`.)
 -/
 import JrpcVerif.Model.Wire
+import JrpcVerif.Model.Utf8
 namespace Jrpc.Driver
 open Jrpc
 
@@ -20,35 +21,6 @@ def unhexBytes : List Char → Option (List Nat)
     match hexNibble a, hexNibble b, unhexBytes r with
     | some x, some y, some rest => some ((x * 16 + y) :: rest)
     | _, _, _ => none
-
-/-- strict UTF-8 decoding of a byte list into code points (overlong forms / surrogates are not
-re-validated here: the harness only sends text that Rust already accepted as `str`) -/
-def utf8Decode : List Nat → Option (List Nat)
-  | [] => some []
-  | b :: r =>
-    if b < 0x80 then (utf8Decode r).map (b :: ·)
-    else if b < 0xC0 then none
-    else if b < 0xE0 then
-      match r with
-      | b1 :: r1 => (utf8Decode r1).map (((b - 0xC0) * 64 + (b1 - 0x80)) :: ·)
-      | _ => none
-    else if b < 0xF0 then
-      match r with
-      | b1 :: b2 :: r2 => (utf8Decode r2).map (((b - 0xE0) * 4096 + (b1 - 0x80) * 64 + (b2 - 0x80)) :: ·)
-      | _ => none
-    else
-      match r with
-      | b1 :: b2 :: b3 :: r3 =>
-        (utf8Decode r3).map (((b - 0xF0) * 262144 + (b1 - 0x80) * 4096 + (b2 - 0x80) * 64 + (b3 - 0x80)) :: ·)
-      | _ => none
-
-def utf8Encode : List Nat → List Nat
-  | [] => []
-  | c :: r =>
-    (if c < 0x80 then [c]
-     else if c < 0x800 then [0xC0 + c / 64, 0x80 + c % 64]
-     else if c < 0x10000 then [0xE0 + c / 4096, 0x80 + (c / 64) % 64, 0x80 + c % 64]
-     else [0xF0 + c / 262144, 0x80 + (c / 4096) % 64, 0x80 + (c / 64) % 64, 0x80 + c % 64]) ++ utf8Encode r
 
 /-- hex token -> text (code points) -/
 def unhexText (s : String) : Option Text :=
